@@ -66,17 +66,26 @@ class CheckHooks(Hooks):
         s2.tags = st.tags + (t,)
         return s2
 
-    def on_loop_head(self, eng, fr, node, head):
+    def _mine(self, fr, node):
+        """the atom loop: a loop of the collector, or the loop synthesised in its caller when the collector is a generator
+        function that the engine inlined into the consuming loop / comprehension"""
         if fr.func is self.loop_func:
+            return any(node is n for n in _atom_loops(self.loop_func))
+        org = getattr(node, "_sa_inlined_from", None)
+        return org is not None and any(org is n for n in _all_for_loops(self.loop_func))
+
+    def on_loop_head(self, eng, fr, node, head):
+        if self._mine(fr, node):
             head.tags = ()
         return head
 
     def on_loop(self, eng, fr, node, syms, entered, back, exits, breaks):
-        if fr.func is self.loop_func and self.loop is None and any(node is n for n in _atom_loops(self.loop_func)):
-            self.loop = dict(node=node, syms=syms, entered=entered, back=back, exits=exits, breaks=breaks)
+        if self.loop is None and self._mine(fr, node):
+            self.loop = dict(node=node, syms=syms, entered=entered, back=back, exits=exits, breaks=breaks, func=fr.func)
 
     def on_call(self, eng, fr, node, callee, args, kwargs, st):
-        if isinstance(callee, tuple) and callee[0] == "method" and callee[1] in ("append", "add") and fr.func is self.loop_func:
+        if isinstance(callee, tuple) and callee[0] == "method" and callee[1] in ("append", "add") \
+                and (fr.func is self.loop_func or self.loop_func.is_generator):
             s2 = self.tag(st, ("record", vkey(callee[2]), node))
             s2.epoch += 1
             return [(s2, Con(None))]
@@ -92,6 +101,10 @@ def _atom_loops(f):
             if "bonding_capacity" in src or "get_bond_count" in src or "get_bonding_capacity" in src:
                 out.append(n)
     return out
+
+
+def _all_for_loops(f):
+    return [n for n in own_nodes(f.node) if isinstance(n, ast.For)]
 
 
 def find_loop_func(ctx, chk):
@@ -198,6 +211,8 @@ def check_comparator(ctx, rep, chk, site, RULE="Q1"):
     cont_names = {c.func.value.id for c in ast.walk(node) if isinstance(c, ast.Call) and isinstance(c.func, ast.Attribute)
                   and c.func.attr in ("append", "add") and isinstance(c.func.value, ast.Name)}
     for nm in sorted(cont_names):
+        if nm.startswith("__comp"):
+            continue            # the result list of a comprehension: fresh and grow-only by construction
         ini = [n for n in inits if isinstance(n.targets[0], ast.Name) and n.targets[0].id == nm]
         empty = len(ini) == 1 and ((isinstance(ini[0].value, ast.List) and not ini[0].value.elts) or
                                    (isinstance(ini[0].value, ast.Call) and not ini[0].value.args and unparse(ini[0].value.func) in ("list", "set")))
